@@ -112,7 +112,7 @@ static void ref_parse(void)
 	size_t p = 0;
 	r_ok = 0; r_nh = 0;
 	/* status line: HTTP/1.x SP 3DIGIT SP reason CRLF */
-	if (!(N >= 19 && BLK[0] == 'H' && BLK[1] == 'T' && BLK[2] == 'T' && BLK[3] == 'P' && BLK[4] == '/' && BLK[5] == '1' && BLK[6] == '.' && BLK[7] >= '0' && BLK[7] <= '9' && BLK[8] == ' ')) return;
+	if (!(N >= 17 && BLK[0] == 'H' && BLK[1] == 'T' && BLK[2] == 'T' && BLK[3] == 'P' && BLK[4] == '/' && BLK[5] == '1' && BLK[6] == '.' && BLK[7] >= '0' && BLK[7] <= '9' && BLK[8] == ' ')) return;
 	for (int i = 9; i < 12; i++) if (!(BLK[i] >= '0' && BLK[i] <= '9')) return;
 	r_status = (BLK[9] - '0') * 100 + (BLK[10] - '0') * 10 + (BLK[11] - '0');
 	if (r_status < 100 || r_status > 599 || BLK[12] != ' ') return;	/* status codes outside 100..599 are rejected by the client (C08) */
@@ -174,6 +174,15 @@ void h_header(void)
 	}
 #ifdef EXACT
 	ref_parse();
+	/* framing headers (first occurrence wins); a Content-Length that decides the framing must be a decimal numeral */
+	int te = -1, cl = -1, clen_ok = 0; size_t clen_v = 0;
+	if (r_ok) {
+		for (size_t k = 8; k-- > 0; ) if (k < r_nh) { if (name_is(k, "Transfer-Encoding")) te = (int)k; if (name_is(k, "Content-Length")) cl = (int)k; }
+		if (cl >= 0) { clen_ok = r_vl[cl] > 0 && r_vl[cl] <= 6; for (size_t j = 0; j < 6; j++) if (j < r_vl[cl]) { uint8_t ch = BLK[r_vs[cl] + j]; if (ch < '0' || ch > '9') clen_ok = 0; else clen_v = clen_v * 10 + (size_t)(ch - '0'); } }
+		int nobody_ = ishead || r_status == 204 || r_status == 304 || (r_status >= 100 && r_status <= 199);
+		int chunked_ = te >= 0 && val_has_chunked((size_t)te);
+		if (!nobody_ && !chunked_ && cl >= 0 && !clen_ok) r_ok = 0;	/* malformed Content-Length: outside "well-formed" */
+	}
 	if (term && r_ok) {
 		CHECK(ucb_calls + outcomes == 1 && !ucb_null, "a well-formed header block is accepted");
 		CHECK(o_status == r_status, "status code");
@@ -187,10 +196,6 @@ void h_header(void)
 				if (j < r_vl[i]) CHECK((uint8_t)OVAL[i][j] == BLK[r_vs[i] + j], "header value bytes");
 			}
 			/* framing selection order: HEAD/204/304, then chunked, then Content-Length, then read-to-EOF */
-			int te = -1, cl = -1;
-			for (size_t k = 8; k-- > 0; ) if (k < r_nh) { if (name_is(k, "Transfer-Encoding")) te = (int)k; if (name_is(k, "Content-Length")) cl = (int)k; }	/* first occurrence wins */
-			int clen_ok = 0; size_t clen_v = 0;
-			if (cl >= 0) { clen_ok = r_vl[cl] > 0 && r_vl[cl] <= 6; for (size_t j = 0; j < 6; j++) if (j < r_vl[cl]) { uint8_t ch = BLK[r_vs[cl] + j]; if (ch < '0' || ch > '9') clen_ok = 0; else clen_v = clen_v * 10 + (size_t)(ch - '0'); } }
 			if (ishead || r_status == 204 || r_status == 304) CHECK(ucb_calls == 1 && outcomes == 0, "HEAD / 204 / 304: bodiless, callback at once");
 			else if (te >= 0 && val_has_chunked((size_t)te)) CHECK(outcome_kind == O_CHUNKED, "Transfer-Encoding: chunked => chunked body");
 			else if (cl >= 0 && clen_ok) { CHECK(outcome_kind == O_CLEN && o_len == clen_v, "Content-Length: n => exactly n body bytes"); }
@@ -198,9 +203,11 @@ void h_header(void)
 		} else {
 			CHECK(r_status >= 100 && r_status <= 199, "only 1xx responses are discarded");
 		}
+		REACHED();	/* the witness of an EXACT obligation is a WELL-FORMED block that reaches the comparison */
 	}
-#endif
+#else
 	REACHED();
+#endif
 }
 
 /* ---- scan stage: callback_read_header with gotheaders rebound to a recording stub ---- */
